@@ -112,7 +112,7 @@ void harness(void)
     vh_sym_bytes(o1, ML + 16); vh_sym_bytes(o2, ML + 16);
     memcpy(e1, o1, ML + 16); memcpy(e2, o2, ML + 16);
 
-    r1 = (int)W(KEYING, DEC, key, KL, (KEYING == 3 && ALTNULL) ? (uint8_t *)0 : alt, altlen, nonce, NLEN, COUNTER, counter,
+    r1 = (int)W(KEYING, DEC, key, KL, ((KEYING == 3 || KEYING == 6 || KEYING == 7) && ALTNULL) ? (uint8_t *)0 : alt, altlen, nonce, NLEN, COUNTER, counter,
                 o1, o2, in, inlen, ad, AL, (uint8_t *)&skr, (uint8_t *)&r2, (uint8_t *)sizes);
 
     /* ---- what the documentation says the object holds ---- */
@@ -122,7 +122,7 @@ void harness(void)
     else if (NLEN >= 16) memcpy(effn, nonce, 16);
     else { memset(effn, 0, 16); memcpy(effn + 16 - NLEN, nonce, NLEN); }
     CHECK(sizes[0] == KL && sizes[1] == 16 && sizes[2] == 16, "key_size/tag_size/nonce_size");
-    if (KEYING == 2 || KEYING == 3 || KEYING == 5) CHECK(skr == 1, "set_key accepts a full-length key, a zero length and (ISAP) a saved key");
+    if (KEYING == 2 || KEYING == 3 || KEYING == 5 || KEYING == 6 || KEYING == 7) CHECK(skr == 1, "set_key accepts a full-length key, a zero length and (ISAP) a saved key");
     if (KEYING == 4) CHECK(skr == 0, "set_key rejects a wrong length with false");
 
     /* ---- the same through the C API (replaying the permutation transcript) ---- */
